@@ -19,6 +19,21 @@ var interesting = []byte{0x00, 0xff, 0x7f, 0x80, '"', '\\', '[', ']', '{', '}', 
 	'u', 'e', 'E', '-', '+', '.', ',', ':', ' ', 't', 'f', 'n', '0', '9',
 	0x85, 0xa0, 0x0b, 0x0c, 0x1c, 0x1d, 0x1e, 0x1f, 0x09, 0x0a, 0x0d, 0xc2, 0xe2, 0xef, 0xbb, 0xbf}
 
+var lenientJSON = [][]byte{
+	{0xef, 0xbb, 0xbf}, {0xff, 0xfe}, {0xfe, 0xff}, {0x1e}, []byte(")]}'\n"), []byte("//c\n"), []byte("/*c*/"), []byte("#c\n"), []byte(","), []byte(",,"),
+	[]byte("NaN"), []byte("Infinity"), []byte("-Infinity"), []byte("+1"), []byte("0x10"), []byte("'a'"), []byte(".5"), []byte("1."), []byte("01"), []byte("1_0"),
+	[]byte("True"), []byte("None"), []byte("undefined"), []byte("nil"), []byte("\\\n"), {0xe2, 0x80, 0xa8}, {0xc2, 0xa0}, {0xe3, 0x80, 0x80}, {0x00},
+}
+
+var lenientCBOR = [][]byte{
+	{0xd9, 0xd9, 0xf7}, {0xc0}, {0xc1}, {0xc2}, {0xd8, 0x18}, {0xd8, 0x20}, {0xda, 0, 0, 0, 1}, {0xdb, 0, 0, 0, 0, 0, 0, 0, 1}, {0xf9, 0x3c, 0x00}, {0xf8, 0x20}, {0xe0}, {0xf0},
+	{0x5f}, {0x7f}, {0xff}, {0xf7}, {0xf6}, {0x40}, {0x60},
+}
+
+var lenientUBJSON = [][]byte{
+	{'N'}, {'N', 'N'}, {'Z'}, {'#'}, {'$'}, {'H', 'i', 1, '1'}, {'C', 'a'}, {'S', 'i', 0}, {' '}, {'\n'}, {0xef, 0xbb, 0xbf}, {'h'}, {'B'}, {'s'},
+}
+
 // Corrupt applies n seeded corruptions to a copy of doc and returns the result.
 func Corrupt(c *simkit.Choices, doc *model.Doc, n int, st *simkit.Stats) ([]byte, []Fault) {
 	b := simkit.Exact(doc.Bytes)
@@ -43,6 +58,42 @@ func Corrupt(c *simkit.Choices, doc *model.Doc, n int, st *simkit.Stats) ([]byte
 			}
 		}
 		f := Fault{Pos: pos}
+		if c.N(6) == 0 {
+			// syntax that lenient readers of the format accept and strict ones
+			// refuse (byte order marks, comments, trailing commas, record
+			// separators, other spellings of literals; CBOR tags, self-describe
+			// magic, half floats, simple values), at the start of the input or
+			// of a token: a leniency added to ONE code path or entry point only
+			// makes the verdict depend on how the bytes arrive
+			var snips [][]byte
+			switch doc.Format {
+			case string(model.JSON):
+				snips = lenientJSON
+			case string(model.CBOR):
+				snips = lenientCBOR
+			default:
+				snips = lenientUBJSON
+			}
+			at := 0
+			if len(doc.Tokens) > 0 && c.N(3) != 0 {
+				t := doc.Tokens[c.N(len(doc.Tokens))]
+				if at = t.S; c.N(4) == 0 {
+					at = t.E
+				}
+				if at > len(b) {
+					at = len(b)
+				}
+			}
+			k := c.N(len(snips))
+			nb := append([]byte{}, b[:at]...)
+			nb = append(nb, snips[k]...)
+			nb = append(nb, b[at:]...)
+			b = nb
+			f.Kind, f.Pos, f.Arg = "lenient-syntax", at, k
+			st.Fault("corrupt-" + f.Kind)
+			faults = append(faults, f)
+			continue
+		}
 		if doc.Format == string(model.JSON) && c.N(6) == 0 {
 			// a byte that some whitespace tests accept and others do not
 			// (Latin-1 NEL / NBSP, VT, FF, the separators 0x1c-0x1f), placed
